@@ -113,6 +113,23 @@ static void blk_unary(void) {
 	}
 	BN_free(two); BN_free(half);
 }
+/* squarings over a WIDER limb alphabet (the all-pairs blocks above square only the diagonal of the small alphabet): the boundary limbs plus the limbs
+   of p and n themselves and their neighbours, all 4-limb combinations; the dedicated squaring routines (separate code in the assembly back-end)
+   against the integer reference and against the multiplication routine with both operands equal */
+static void blk_squares(void) {
+	if (!vh_block_begin("squares")) return;
+	static const uint64_t LS[] = { 0, 1, 0xffffffffULL, 0x100000000ULL, 0x8000000000000000ULL, 0xffffffffffffffffULL, 0xffffffff00000000ULL, 0xfffffffeffffffffULL, 0xfffffffffffffffeULL, 0x7fffffffffffffffULL, 0x00000000fffffffeULL, 0x0000000100000001ULL,
+		0x53BBF40939D54123ULL, 0x7203DF6B21C6052BULL, 0xfffffffe00000000ULL, 2 };
+	size_t nl = vh_thorough ? 16 : 12; BN_CTX *c = sr_ctx(); BIGNUM *A = BN_new();
+	for (size_t i3 = 0; i3 < nl; i3++) for (size_t i2 = 0; i2 < nl; i2++) { if (!vh_next()) continue; if (vh_deadline_hit()) { vh_capped = 1; break; }
+		for (size_t i1 = 0; i1 < nl; i1++) for (size_t i0 = 0; i0 < nl; i0++) { uint64_t a[4] = { LS[i0], LS[i1], LS[i2], LS[i3] }, r[4], r2[4]; sr_limbs_to_bn(A, a);
+			if (BN_cmp(A, sr_p()) < 0) { sm2_z256_modp_mont_sqr(r, a); mont_mul_ref(T1, A, A, sr_p(), RPI); chk1("modp_mont_sqr", a, r, T1); sm2_z256_modp_mont_mul(r2, a, a); chk1("modp_mont_mul(a,a)", a, r2, T1); }
+			if (BN_cmp(A, sr_n()) < 0) { sm2_z256_modn_mont_sqr(r, a); mont_mul_ref(T1, A, A, sr_n(), RNI); chk1("modn_mont_sqr", a, r, T1); sm2_z256_modn_mont_mul(r2, a, a); chk1("modn_mont_mul(a,a)", a, r2, T1);
+				sm2_z256_modn_sqr(r, a); BN_mod_sqr(T1, A, sr_n(), c); chk1("modn_sqr", a, r, T1); }
+			{ uint64_t w[8], e[8]; sm2_z256_mul(w, a, a); BN_sqr(T1, A, c); sr_bn_to_limbs(e, T1); BN_rshift(T2, T1, 256); sr_bn_to_limbs(e + 4, T2); vh_evals++; vh_nontriv++; if (memcmp(w, e, 64)) vh_viol("C13:mul(a,a)", "\"a\":\"%s\"", lhex(a)); } }
+		vh_sample("{\"block\":\"squares\",\"top_limbs\":[\"%016llx\",\"%016llx\"],\"operands\":%zu}", (unsigned long long)LS[i3], (unsigned long long)LS[i2], nl * nl); }
+	BN_free(A);
+}
 /* ---------------- points ---------------- */
 #define NPTS 14
 static EC_POINT *RPT[NPTS]; static SM2_Z256_POINT LPT[NPTS]; static const char *PNAME[NPTS] = { "O", "O(0,0,0)", "G", "-G", "2G", "P", "-P", "2P", "Q", "P(Z=7)", "G(Z=R-ish)", "3G", "(0,sqrt(b))", "(0,-sqrt(b))" };
@@ -210,7 +227,7 @@ static void blk_scalars(void) {
 	for (size_t i = 0; i < NOPS - 18; i += (vh_thorough ? 1 : 7)) { if (!vh_next()) continue; scalar_case(OPB[i], "limb-alphabet"); }
 	BN_free(k); BN_free(t);
 }
-static void body(void) { blk_unary(); blk_points(); blk_coincident(); blk_scalars(); blk_binary(); }
+static void body(void) { blk_unary(); blk_squares(); blk_points(); blk_coincident(); blk_scalars(); blk_binary(); }
 int main(int argc, char **argv) {
 	vh_init(argc, argv); if (!freopen("/dev/null", "w", stderr)) {} sr_init(); build_ops(); build_points();
 	T1 = BN_new(); T2 = BN_new(); T3 = BN_new(); RP = BN_new(); RN = BN_new(); RPI = BN_new(); RNI = BN_new(); M256 = BN_new(); BN_set_bit(M256, 256);
